@@ -13,6 +13,7 @@ import (
 	"encoding/xml"
 	"fmt"
 	"io"
+	"regexp"
 	"sort"
 	"strings"
 
@@ -62,13 +63,15 @@ type recorder struct {
 	calls    []call
 	funcs    []marker // handlers registered through the Func variants
 	lastFunc int
+	errs     map[int]bool // which invoked registered handlers (by ordinal) return an error
 }
 
 type call struct {
-	pat  Pat
-	gen  int
-	toks []xml.Token
-	eof  bool
+	payload xml.Name // IQ handlers: the payload start element they were given
+	pat     Pat
+	gen     int
+	toks    []xml.Token
+	eof     bool
 }
 
 type marker struct {
@@ -77,10 +80,14 @@ type marker struct {
 	gen int // which registration attempt created this handler (histories)
 }
 
-func (m marker) read(t xml.TokenReader) {
+func (m marker) read(t xml.TokenReader) error {
 	c := 0
 	if m.rec.k < len(m.rec.cons) {
 		c = m.rec.cons[m.rec.k]
+	}
+	var ret error
+	if m.rec.errs[m.rec.k] {
+		ret = fmt.Errorf("E%d", m.rec.k)
 	}
 	m.rec.k++
 	cl := call{pat: m.pat, gen: m.gen}
@@ -95,23 +102,24 @@ func (m marker) read(t xml.TokenReader) {
 		}
 	}
 	m.rec.calls = append(m.rec.calls, cl)
+	return ret
 }
 
 func (m marker) HandleXMPP(t xmlstream.TokenReadEncoder, start *xml.StartElement) error {
-	m.read(t)
-	return nil
+	return m.read(t)
 }
 func (m marker) HandleIQ(iq stanza.IQ, t xmlstream.TokenReadEncoder, start *xml.StartElement) error {
-	m.read(t)
-	return nil
+	err := m.read(t)
+	if start != nil && len(m.rec.calls) > 0 {
+		m.rec.calls[len(m.rec.calls)-1].payload = start.Name
+	}
+	return err
 }
 func (m marker) HandleMessage(msg stanza.Message, t xmlstream.TokenReadEncoder) error {
-	m.read(t)
-	return nil
+	return m.read(t)
 }
 func (m marker) HandlePresence(p stanza.Presence, t xmlstream.TokenReadEncoder) error {
-	m.read(t)
-	return nil
+	return m.read(t)
 }
 
 func optionOf(m marker) mux.Option {
@@ -233,10 +241,20 @@ func nilFuncOption(p Pat) mux.Option {
 }
 
 func build(ns string, ps []Pat, rec *recorder) (m *mux.ServeMux, panicked string) {
+	return buildFn(ns, ps, rec, false)
+}
+
+// buildFn registers through the Func variants of the options (the adapters of mux/stanza.go)
+// when fn is set.
+func buildFn(ns string, ps []Pat, rec *recorder, fn bool) (m *mux.ServeMux, panicked string) {
 	panicked = common.Recover(func() {
 		opts := make([]mux.Option, len(ps))
 		for i, p := range ps {
-			opts[i] = option(p, rec, false)
+			if fn {
+				opts[i] = funcOption(p, rec, 0)
+			} else {
+				opts[i] = option(p, rec, false)
+			}
 		}
 		m = mux.New(ns, opts...)
 	})
@@ -278,7 +296,10 @@ func best(ps []Pat, kind, typ string, n xml.Name) *Pat {
 	return b
 }
 
-type ctx struct{ r *common.Run }
+type ctx struct {
+	r    *common.Run
+	nerr int
+}
 
 func (c *ctx) lookup(ps []Pat, kind, typ string, n xml.Name, class string) {
 	r := c.r
@@ -358,9 +379,78 @@ func effectiveType(kind string, st xml.StartElement) string {
 	return string(p.Type)
 }
 
-// children sends one message / presence stanza through a real session whose
-// handler is the multiplexer and compares which handlers ran and what each read.
+// framedReader hands out a fixed token list.  framing "sep" reports io.EOF on a separate call
+// after the last token, "eof" returns the last token together with io.EOF (encoding/xml allows
+// both for a TokenReader; xmlstream.Token and xmlstream.MultiReader do the latter).
+var errList = regexp.MustCompile(`^E[0-9]+(, E[0-9]+)*$`)
+
+type framedReader struct {
+	toks    []xml.Token
+	i       int
+	framing string
+	wrote   int
+}
+
+func (f *framedReader) Token() (xml.Token, error) {
+	if f.i >= len(f.toks) {
+		return nil, io.EOF
+	}
+	t := f.toks[f.i]
+	f.i++
+	if f.i == len(f.toks) && f.framing == "eof" {
+		return t, io.EOF
+	}
+	return t, nil
+}
+func (f *framedReader) EncodeToken(xml.Token) error                       { f.wrote++; return nil }
+func (f *framedReader) Encode(interface{}) error                          { f.wrote++; return nil }
+func (f *framedReader) EncodeElement(interface{}, xml.StartElement) error { f.wrote++; return nil }
+
+func encInts(v []int) string {
+	cs := make([]string, len(v))
+	for i, x := range v {
+		cs[i] = fmt.Sprint(x)
+	}
+	return common.Join(cs, ",")
+}
+
+// children sends one message / presence stanza to the multiplexer in every mode: through a
+// real session, and directly (HandleXMPP on a token reader) with both end-of-input framings.
 func (c *ctx) children(ps []Pat, stanzaXML string, cons []int, class string) {
+	c.dispatch(ps, stanzaXML, cons, nil, "session", class)
+	if strings.Count(stanzaXML, "<") > 6000 {
+		// the call-by-call model of the replay buffer appends token by token (quadratic in the
+		// driver): the largest stanzas go through the session only
+		return
+	}
+	c.dispatch(ps, stanzaXML, cons, nil, "sep", class)
+	c.dispatch(ps, stanzaXML, cons, nil, "eof", class)
+	// some of the invoked handlers fail: every later child is still dispatched, the failed
+	// calls are reported
+	c.nerr++
+	var errs []int
+	switch c.nerr % 4 {
+	case 0:
+		errs = []int{0}
+	case 1:
+		errs = []int{1}
+	case 2:
+		errs = []int{0, 2, 3}
+	default:
+		for k := 0; k < len(cons) && k < 40; k++ {
+			if (c.nerr/4+k)%3 == 0 {
+				errs = append(errs, k)
+			}
+		}
+	}
+	c.dispatch(ps, stanzaXML, cons, errs, []string{"sep", "eof"}[(c.nerr/2)%2], class+"-errs")
+}
+
+// dispatch sends one message / presence stanza to the multiplexer and compares which handlers
+// ran and what each read.  mode "session": through a real session whose handler is the mux;
+// "sep" / "eof": HandleXMPP is called directly on a framedReader of that framing, and the
+// invoked registered handlers whose ordinal is in errs return an error.
+func (c *ctx) dispatch(ps []Pat, stanzaXML string, cons []int, errs []int, mode string, class string) {
 	r := c.r
 	ns := c08.NSClient
 	body := []byte(stanzaXML + "</stream:stream>")
@@ -378,19 +468,46 @@ func (c *ctx) children(ps []Pat, stanzaXML string, cons []int, class string) {
 	}
 	typ := effectiveType(kind, st)
 	stanzaToks := toks[:len(toks)-1]
-	cs := make([]string, len(cons))
-	for i, v := range cons {
-		cs[i] = fmt.Sprint(v)
+	var line string
+	if mode == "session" {
+		line = strings.Join([]string{"children", kind, field(typ), encPats(ps), common.EncToks(stanzaToks), encInts(cons)}, " ")
+	} else {
+		line = strings.Join([]string{"direct", mode, kind, field(typ), encPats(ps), common.EncToks(stanzaToks), encInts(cons), encInts(errs)}, " ")
+		class += "-" + mode
 	}
-	line := strings.Join([]string{"children", kind, field(typ), encPats(ps), common.EncToks(stanzaToks), common.Join(cs, ",")}, " ")
 	lines := []string{r.Prop + " " + line, "#stanza " + common.HexS(stanzaXML)}
-	rec := &recorder{cons: cons}
-	m, p := build(ns, ps, rec)
+	rec := &recorder{cons: cons, errs: map[int]bool{}}
+	for _, e := range errs {
+		rec.errs[e] = true
+	}
+	// the direct runs over a "sep" reader register through the Func variants of the options
+	m, p := buildFn(ns, ps, rec, mode == "sep")
 	if p != "" {
 		r.Line(line, "BUILD-PANIC")
 		return
 	}
-	res := c08.Serve(ns, c08.LocalJID, c08.RemoteJID, body, nil, func(xmpp.Handler) xmpp.Handler { return m })
+	var res c08.Result
+	errObs := ""
+	if mode == "session" {
+		res = c08.Serve(ns, c08.LocalJID, c08.RemoteJID, body, nil, func(xmpp.Handler) xmpp.Handler { return m })
+	} else {
+		fr := &framedReader{toks: stanzaToks[1:], framing: mode}
+		start := st.Copy()
+		var herr error
+		res.Panic = common.Recover(func() { herr = m.HandleXMPP(fr, &start) })
+		switch {
+		case herr == nil:
+			errObs = "|err=-"
+		case errList.MatchString(herr.Error()):
+			errObs = "|err=" + strings.ReplaceAll(strings.ReplaceAll(herr.Error(), ", ", ","), "E", "")
+		default:
+			errObs = "|err=other"
+			res.Err = herr
+		}
+		if fr.wrote > 0 {
+			errObs += "|wrote"
+		}
+	}
 	if res.Panic != "" || res.Stall {
 		r.Line(line, "PANIC-OR-STALL")
 		r.Fail("no-panic", "panic", lines, res.Panic)
@@ -400,12 +517,17 @@ func (c *ctx) children(ps []Pat, stanzaXML string, cons []int, class string) {
 	for _, cl := range rec.calls {
 		obs = append(obs, cl.pat.Enc()+"="+common.EncToks(cl.toks))
 	}
-	r.Line(line, common.Join(obs, "/"))
+	r.Line(line, common.Join(obs, "/")+errObs)
 	r.Case(line, len(rec.calls) > 0, fmt.Sprintf("%s/children-%s/%d", class, kind, len(rec.calls)))
 
 	// ---- property clauses ------------------------------------------------------------
 	fail := func(clause, key, detail string) { r.Fail(clause, key, lines, detail) }
-	if cls := c08.ErrClass(res.Err); cls != "clean" {
+	if mode != "session" {
+		if res.Err != nil {
+			fail("dispatch-ok", "dispatch-error/"+mode, fmt.Sprintf("HandleXMPP returned %v", res.Err))
+			return
+		}
+	} else if cls := c08.ErrClass(res.Err); cls != "clean" {
 		fail("dispatch-ok", "serve-error", fmt.Sprintf("Serve ended with %s (%v)", cls, res.Err))
 		return
 	}
@@ -475,7 +597,11 @@ func (c *ctx) iqDefault(ps []Pat, typ string, n xml.Name, class string) {
 		return
 	}
 	pl := "<" + n.Local + ` xmlns="` + n.Space + `"/>`
-	body := []byte(`<iq type="` + typ + `" id="d1" from="a@example.org/r">` + pl + `</iq></stream:stream>`)
+	ta := ` type="` + typ + `"`
+	if typ == "" {
+		ta = ""
+	}
+	body := []byte(`<iq` + ta + ` id="d1" from="a@example.org/r">` + pl + `</iq></stream:stream>`)
 	res := c08.Serve(ns, c08.LocalJID, c08.RemoteJID, body, nil, func(xmpp.Handler) xmpp.Handler { return m })
 	if res.Panic != "" || res.Stall {
 		r.Line(line, "PANIC-OR-STALL")
@@ -503,6 +629,96 @@ func (c *ctx) iqDefault(ps []Pat, typ string, n xml.Name, class string) {
 	case want != nil && !request && len(els) > 0:
 		// (for a request the session itself answers when the marker handler wrote nothing: C07)
 		r.Fail("defaults", "reply-besides-handler", lines, "an element was written although a handler ran for a reply IQ")
+	case want == nil && request && obs != "fallback":
+		r.Fail("defaults", "request-unanswered", lines, fmt.Sprintf("unhandled %s IQ: observed %s, want one service-unavailable error", typ, obs))
+	case want == nil && !request && obs != "nothing":
+		r.Fail("defaults", "reply-answered", lines, fmt.Sprintf("unhandled %s IQ: observed %s, want nothing", typ, obs))
+	}
+}
+
+// iqDirect calls HandleXMPP with one IQ stanza on a reader of the given framing: which handler
+// runs, which payload start element it is given and what it can read (the rest of the IQ's
+// content, never the IQ's end element), or the fallback reply / nothing / an error.
+func (c *ctx) iqDirect(ps []Pat, typ, inner string, cons int, framing, class string) {
+	r := c.r
+	ns := c08.NSClient
+	ta := ` type="` + typ + `"`
+	if typ == "" {
+		ta = ""
+	}
+	sx := `<iq` + ta + ` id="d1" from="a@example.org/r">` + inner + `</iq>`
+	toks := c08.Tokens(ns, []byte(sx+"</stream:stream>"))
+	if len(toks) < 3 {
+		return
+	}
+	st, ok := toks[0].(xml.StartElement)
+	if !ok {
+		return
+	}
+	stanzaToks := toks[:len(toks)-1]
+	line := strings.Join([]string{"iqdirect", framing, field(typ), encPats(ps), common.EncToks(stanzaToks), fmt.Sprint(cons)}, " ")
+	lines := []string{r.Prop + " " + line, "#inner " + common.HexS(inner)}
+	rec := &recorder{cons: []int{cons}}
+	m, p := buildFn(ns, ps, rec, framing == "sep")
+	if p != "" {
+		r.Line(line, "BUILD-PANIC")
+		return
+	}
+	fr := &framedReader{toks: stanzaToks[1:], framing: framing}
+	start := st.Copy()
+	var herr error
+	if pn := common.Recover(func() { herr = m.HandleXMPP(fr, &start) }); pn != "" {
+		r.Line(line, "PANIC")
+		r.Fail("no-panic", "panic", lines, pn)
+		return
+	}
+	obs := "nothing"
+	switch {
+	case len(rec.calls) > 0:
+		cl := rec.calls[0]
+		obs = "h=" + cl.pat.Enc() + "@" + encName(cl.payload) + "=" + common.EncToks(cl.toks)
+	case herr != nil:
+		obs = "err"
+	case fr.wrote > 0:
+		obs = "fallback"
+	}
+	r.Line(line, obs)
+	r.Case(line, len(rec.calls) > 0, class+"/iqdirect-"+framing+"/"+strings.SplitN(obs, "=", 2)[0])
+	// the specification: the first child element is the payload; the most specific pattern of
+	// the IQ's type for its name; the handler reads the content after the payload's start tag
+	var inTok []xml.Token
+	for _, t := range stanzaToks[1 : len(stanzaToks)-1] {
+		if cd, isCD := t.(xml.CharData); isCD && len(inTok) == 0 && strings.TrimLeft(string(cd), " \n\r\t") == "" {
+			continue
+		}
+		inTok = append(inTok, t)
+	}
+	if len(inTok) == 0 {
+		return
+	}
+	ps0, isStart := inTok[0].(xml.StartElement)
+	if !isStart {
+		if len(rec.calls) > 0 {
+			r.Fail("most-specific", "iq-no-payload", lines, "a handler ran for an IQ whose first content is not an element")
+		}
+		return
+	}
+	want := best(ps, "i", typ, ps0.Name)
+	request := typ != "result" && typ != "error"
+	switch {
+	case want != nil && (len(rec.calls) != 1 || rank(rec.calls[0].pat.Name) != rank(want.Name) || rec.calls[0].pat.Typ != typ):
+		r.Fail("most-specific", "iq-dispatch", lines, fmt.Sprintf("observed %s, want the handler of %s", obs, want.Enc()))
+	case want != nil:
+		wantToks := inTok[1:]
+		if cons < len(wantToks) {
+			wantToks = wantToks[:cons]
+		}
+		if rec.calls[0].payload != ps0.Name {
+			r.Fail("full-stanza", "iq-payload-start", lines, fmt.Sprintf("the handler was given the start element %v, the payload is %v", rec.calls[0].payload, ps0.Name))
+		}
+		if common.EncToks(rec.calls[0].toks) != common.EncToks(wantToks) {
+			r.Fail("full-stanza", "iq-view", lines, fmt.Sprintf("the handler read %s, want %s", common.EncToks(rec.calls[0].toks), common.EncToks(wantToks)))
+		}
 	case want == nil && request && obs != "fallback":
 		r.Fail("defaults", "request-unanswered", lines, fmt.Sprintf("unhandled %s IQ: observed %s, want one service-unavailable error", typ, obs))
 	case want == nil && !request && obs != "nothing":
@@ -826,11 +1042,24 @@ func subset(u []Pat, mask int) []Pat {
 	return ps
 }
 
+// the stanza types of every kind: the declared constants, then the empty type, a type the
+// library does not know and a case variant of a known one (a pattern's type and a stanza's type
+// are compared verbatim, no side is normalised)
 var typesOf = map[string][]string{
 	"t": {""},
-	"i": {"get", "set", "result", "error"},
-	"m": {"normal", "chat", "error", "groupchat", "headline"},
-	"p": {"", "unavailable", "subscribe", "probe", "error"},
+	"i": {"get", "set", "result", "error", "", "xx", "GET"},
+	"m": {"normal", "chat", "error", "groupchat", "headline", "", "xx", "Chat"},
+	"p": {"", "unavailable", "subscribe", "probe", "error", "xx", "Unavailable"},
+}
+
+// attrType is the stanza type a message / presence with the given type attribute ("" = no
+// attribute) has according to stanza.NewMessage / NewPresence.
+func attrType(kind, attr string) string {
+	st := xml.StartElement{Name: xml.Name{Space: c08.NSClient, Local: "message"}}
+	if attr != "" {
+		st.Attr = []xml.Attr{{Name: xml.Name{Local: "type"}, Value: attr}}
+	}
+	return effectiveType(kind, st)
 }
 
 func genStanza(rnd *common.Rand, local, typ string) (string, int) {
@@ -951,10 +1180,38 @@ func Run(r *common.Run) error {
 				if mask&(1<<i) != 0 {
 					ps = append(ps, Pat{Kind: "i", Typ: typ, Name: s})
 				} else if (i+ti)%2 == 0 {
-					ps = append(ps, Pat{Kind: "i", Typ: typesOf["i"][(ti+1)%4], Name: s})
+					ps = append(ps, Pat{Kind: "i", Typ: typesOf["i"][(ti+1)%len(typesOf["i"])], Name: s})
+					if ti%2 == 0 {
+						ps = append(ps, Pat{Kind: "i", Typ: typesOf["i"][(ti+4)%len(typesOf["i"])], Name: s})
+					}
 				}
 			}
 			c.iqDefault(ps, typ, q, "exhaustive")
+		}
+	}
+
+	// IQs handed to HandleXMPP directly, both framings: payload alone, with whitespace before
+	// it, with siblings and text after it, nested content; every consumption amount
+	iqInner := []string{`<x xmlns="urn:a"/>`, ` <x xmlns="urn:a"/>`, "\n\t<x xmlns=\"urn:a\"><i/>t</x> ", `<x xmlns="urn:a">t</x><y xmlns="urn:b"/>tail`,
+		`<y xmlns="urn:b"/><x xmlns="urn:a"/>`, `text<x xmlns="urn:a"/>`, ``, ` `, `<x xmlns="urn:a"><x xmlns="urn:a"/></x>`}
+	for ti, typ := range typesOf["i"] {
+		for ii, inner := range iqInner {
+			for mask := 0; mask < 16; mask++ {
+				if r.Quick() && (mask+ii+ti)%2 == 1 {
+					continue
+				}
+				var ps []Pat
+				for i, s := range shapes {
+					if mask&(1<<i) != 0 {
+						ps = append(ps, Pat{Kind: "i", Typ: typ, Name: s})
+					} else if (i+ti)%2 == 0 {
+						ps = append(ps, Pat{Kind: "i", Typ: typesOf["i"][(ti+1)%len(typesOf["i"])], Name: s})
+					}
+				}
+				for _, cons := range []int{0, 1, 2, 3, 9} {
+					c.iqDirect(ps, typ, inner, cons, []string{"sep", "eof"}[(mask+cons)%2], "exhaustive")
+				}
+			}
 		}
 	}
 
@@ -971,6 +1228,26 @@ func Run(r *common.Run) error {
 		}
 	}
 	c.register(nil, Pat{Kind: "t", Name: xml.Name{Space: "urn:a", Local: "message"}}, "ok")
+	// every pair of types of a kind: a pattern of type T1 is found by lookups of type T1 only
+	// (every shape), and does not stand in the way of registering the same name for type T2
+	for _, kind := range []string{"i", "m", "p"} {
+		for i1, t1 := range typesOf[kind] {
+			for i2, t2 := range typesOf[kind] {
+				sh := shapes[(i1+i2)%4]
+				c.lookup([]Pat{{Kind: kind, Typ: t1, Name: sh}}, kind, t2, q, "type-pairs")
+				c.lookup([]Pat{{Kind: kind, Typ: t1, Name: shapes[3]}, {Kind: kind, Typ: t2, Name: shapes[0]}}, kind, t2, q, "type-pairs")
+				mode := "ok"
+				c.register([]Pat{{Kind: kind, Typ: t1, Name: sh}}, Pat{Kind: kind, Typ: t2, Name: sh}, mode)
+				c.hist(c08.NSClient, []hop{
+					{op: 'R', pat: Pat{Kind: kind, Typ: t1, Name: sh}, fn: i2%2 == 1},
+					{op: 'L', pat: Pat{Kind: kind, Typ: t2, Name: q}},
+					{op: 'R', pat: Pat{Kind: kind, Typ: t2, Name: sh}, fn: i1%2 == 1},
+					{op: 'L', pat: Pat{Kind: kind, Typ: t1, Name: q}},
+					{op: 'L', pat: Pat{Kind: kind, Typ: t2, Name: q}},
+				}, "type-pairs")
+			}
+		}
+	}
 	r.Exhaustive = append(r.Exhaustive, "every subset (quick: every third) of the 9 patterns over {\"\",urn:a,urn:b} x {\"\",x,y} per lookup kind x all 9 query names; the 16 subsets of the four shapes of one name x every kind and type with distractor patterns; registration of every pattern as new / duplicate / nil / nil func")
 
 	// per-child dispatch: fixed stanzas with all consumption amounts, then random
@@ -1146,7 +1423,12 @@ func Run(r *common.Run) error {
 			styp := typesOf[kind][rnd.Intn(len(typesOf[kind]))]
 			s, ntok := largeStanza(rnd, local, styp, size)
 			// the wildcard and a few specific patterns of the stanza's type
+			raw := styp
+			styp = attrType(kind, styp)
 			ps := []Pat{{Kind: kind, Typ: styp, Name: xml.Name{}}}
+			if raw != styp {
+				ps = append(ps, Pat{Kind: kind, Typ: raw, Name: xml.Name{}})
+			}
 			for _, p := range universe(kind, styp)[1:] {
 				if rnd.Chance(1, 3) {
 					ps = append(ps, p)
@@ -1184,12 +1466,17 @@ func Run(r *common.Run) error {
 		}
 		styp := typesOf[kind][rnd.Intn(len(typesOf[kind]))]
 		s, ntok := genStanza(rnd, local, styp)
+		raw := styp
+		styp = attrType(kind, styp)
 		var ps []Pat
 		for ui, k2 := range []string{kind, kind, "m", "p", "i"} {
 			ts := typesOf[k2]
 			t2 := ts[rnd.Intn(len(ts))]
 			if ui == 0 {
 				t2 = styp
+			}
+			if ui == 1 && raw != styp {
+				t2 = raw
 			}
 			u := universe(k2, t2)
 			for _, p := range u {
@@ -1234,6 +1521,18 @@ func decPat(s string) (Pat, error) {
 		return string(b)
 	}
 	return Pat{Kind: f[0], Typ: un(f[1]), Name: xml.Name{Space: un(f[2]), Local: un(f[3])}}, nil
+}
+
+func decInts(s string) []int {
+	var out []int
+	if s != "-" {
+		for _, x := range strings.Split(s, ",") {
+			var v int
+			fmt.Sscan(x, &v)
+			out = append(out, v)
+		}
+	}
+	return out
 }
 
 func decPats(s string) ([]Pat, error) {
@@ -1335,6 +1634,18 @@ func (c *ctx) replay(lines []string) error {
 				}
 			}
 			c.hist(unfield(f[2]), ops, "replay")
+		case "iqdirect":
+			if len(f) != 7 || i+1 >= len(lines) || !strings.HasPrefix(lines[i+1], "#inner ") {
+				continue
+			}
+			ps, err := decPats(f[4])
+			if err != nil {
+				return err
+			}
+			in, _ := common.UnHex(strings.TrimPrefix(lines[i+1], "#inner "))
+			var cn int
+			fmt.Sscan(f[6], &cn)
+			c.iqDirect(ps, unfield(f[3]), string(in), cn, f[2], "replay")
 		case "iqdefault":
 			if len(f) != 5 {
 				continue
@@ -1370,16 +1681,146 @@ func (c *ctx) replay(lines []string) error {
 				return err
 			}
 			sx, _ := common.UnHex(strings.TrimPrefix(lines[i+1], "#stanza "))
-			var cons []int
-			if f[6] != "-" {
-				for _, x := range strings.Split(f[6], ",") {
-					var v int
-					fmt.Sscan(x, &v)
-					cons = append(cons, v)
-				}
+			cons := decInts(f[6])
+			c.dispatch(ps, string(sx), cons, nil, "session", "replay")
+		case "direct":
+			if len(f) != 9 || i+1 >= len(lines) || !strings.HasPrefix(lines[i+1], "#stanza ") {
+				continue
 			}
-			c.children(ps, string(sx), cons, "replay")
+			ps, err := decPats(f[5])
+			if err != nil {
+				return err
+			}
+			sx, _ := common.UnHex(strings.TrimPrefix(lines[i+1], "#stanza "))
+			c.dispatch(ps, string(sx), decInts(f[7]), decInts(f[8]), f[2], "replay")
 		}
 	}
 	return nil
+}
+
+// ---- probe facts -------------------------------------------------------------------
+
+func leanStr(s string) string { return fmt.Sprintf("%q", s) }
+
+func leanKind(k string) string {
+	return map[string]string{"t": ".top", "i": ".iq", "m": ".msg", "p": ".pres"}[k]
+}
+
+func leanBool(b bool) string {
+	if b {
+		return "true"
+	}
+	return "false"
+}
+
+// Facts runs the real registration options and exported lookups over complete finite domains
+// and emits the resulting tables as Lean definitions (Generated/C14.lean):
+//
+//	typeTable    every kind x every ordered pair (T1, T2) of the type universe: is a pattern
+//	             registered with type T1 (bare wildcard, plain option; exact name, Func option)
+//	             found by the lookup of type T2, and is registering the same name for T2 after T1
+//	             accepted
+//	cascadeTable every kind x every subset of the four shapes of one name: which shape the
+//	             exported lookup returns
+//
+// Nothing here depends on the source text of the library: any refactoring that keeps the
+// behaviour keeps the tables.
+func Facts(repo string) (string, error) {
+	var sb strings.Builder
+	sb.WriteString("-- GENERATED by `harness facts C14`: the real mux options and lookups run on complete finite domains; do not edit.\n")
+	sb.WriteString("import XmppModel.Model.Mux\n")
+	sb.WriteString("namespace XmppModel.Generated.C14\nopen XmppModel.Mux\n\n")
+	q := xml.Name{Space: "urn:a", Local: "x"}
+	found := func(ps []Pat, fn bool, kind, typ string) (res string) {
+		res = "none"
+		rec := &recorder{}
+		p := common.Recover(func() {
+			m := mux.New(c08.NSClient)
+			for i, pt := range ps {
+				if fn {
+					funcOption(pt, rec, i)(m)
+				} else {
+					optionOf(marker{pat: pt, rec: rec, gen: i})(m)
+				}
+			}
+			var h interface{}
+			switch kind {
+			case "t":
+				h, _ = m.Handler(q)
+			case "i":
+				h, _ = m.IQHandler(stanza.IQType(typ), q)
+			case "m":
+				h, _ = m.MessageHandler(stanza.MessageType(typ), q)
+			case "p":
+				h, _ = m.PresenceHandler(stanza.PresenceType(typ), q)
+			}
+			if mk, ok := identify(h, rec); ok {
+				res = fmt.Sprintf("some ⟨%s, %s, ⟨%s, %s⟩⟩", leanKind(mk.pat.Kind), leanStr(mk.pat.Typ), leanStr(mk.pat.Name.Space), leanStr(mk.pat.Name.Local))
+			}
+		})
+		if p != "" {
+			res = "PANIC"
+		}
+		return res
+	}
+	ok := true
+	var rows []string
+	for _, kind := range []string{"i", "m", "p"} {
+		for _, t1 := range typesOf[kind] {
+			for _, t2 := range typesOf[kind] {
+				a := found([]Pat{{Kind: kind, Typ: t1, Name: xml.Name{}}}, false, kind, t2)
+				b := found([]Pat{{Kind: kind, Typ: t1, Name: q}}, true, kind, t2)
+				if a == "PANIC" || b == "PANIC" {
+					ok = false
+				}
+				second := common.Recover(func() {
+					rec := &recorder{}
+					m := mux.New(c08.NSClient)
+					optionOf(marker{pat: Pat{Kind: kind, Typ: t1, Name: q}, rec: rec})(m)
+					funcOption(Pat{Kind: kind, Typ: t2, Name: q}, rec, 1)(m)
+				}) == ""
+				rows = append(rows, fmt.Sprintf("  ⟨%s, %s, %s, %s, %s, %s⟩", leanKind(kind), leanStr(t1), leanStr(t2), leanBool(a != "none"), leanBool(b != "none"), leanBool(second)))
+			}
+		}
+	}
+	sb.WriteString("/-- (kind, T1, T2, wildcard of T1 found by the T2 lookup, exact name of T1 (Func option) found by the T2 lookup,\n    the same name accepted for T2 after T1) -/\n")
+	if ok {
+		sb.WriteString("def typeTable : Option (List TypeRow) := some [\n" + strings.Join(rows, ",\n") + "]\n\n")
+	} else {
+		sb.WriteString("def typeTable : Option (List TypeRow) := none\n\n")
+	}
+	shapes := []xml.Name{q, {Local: "x"}, {Space: "urn:a"}, {}}
+	rows = nil
+	ok = true
+	for _, kind := range []string{"t", "i", "m", "p"} {
+		typ := ""
+		if kind != "t" {
+			typ = typesOf[kind][1]
+		}
+		nsh := 4
+		if kind == "t" {
+			nsh = 3 // Handle(xml.Name{}) is legal but the top-level cascade has no bare-wildcard step; kept out
+		}
+		for mask := 0; mask < 1<<nsh; mask++ {
+			var ps []Pat
+			for i := nsh - 1; i >= 0; i-- {
+				if mask&(1<<i) != 0 {
+					ps = append(ps, Pat{Kind: kind, Typ: typ, Name: shapes[i]})
+				}
+			}
+			a := found(ps, mask%2 == 1, kind, typ)
+			if a == "PANIC" {
+				ok = false
+			}
+			rows = append(rows, fmt.Sprintf("  ⟨%s, %s, %d, %s⟩", leanKind(kind), leanStr(typ), mask, a))
+		}
+	}
+	sb.WriteString("/-- (kind, type, mask of the registered shapes of {urn:a}x: 1 exact, 2 local name only, 4 namespace only, 8 wildcard,\n    the pattern whose handler the exported lookup returns) -/\n")
+	if ok {
+		sb.WriteString("def cascadeTable : Option (List CascadeRow) := some [\n" + strings.Join(rows, ",\n") + "]\n\n")
+	} else {
+		sb.WriteString("def cascadeTable : Option (List CascadeRow) := none\n\n")
+	}
+	sb.WriteString("end XmppModel.Generated.C14\n")
+	return sb.String(), nil
 }
